@@ -101,7 +101,7 @@ class VerusModule:
 def make_file(path, modules, extra_top=''):
     parts = [prelude_text(), extra_top, 'verus! {']
     for m in modules:
-        parts.append('pub mod %s {\nuse super::*;\nuse vstd::prelude::*;\n%s\n}' % (m.prog.name_mod(), m.text))
+        parts.append('pub mod %s {\nuse super::*;\nuse vstd::prelude::*;\nbroadcast use crate::vx_axioms::axiom_str_ext;\n%s\n}' % (m.prog.name_mod(), m.text))
     parts.append(CANARY)
     parts.append('} // verus!\nfn main() {}\n')
     text = '\n'.join(parts)
